@@ -51,6 +51,17 @@ def run(repo, chk, tier):
 
     check_frame_typing(repo, chk)
     check_memo_soundness(repo, chk)
+    # "sum over chains": the per-chain / per-pair evaluations used for fit fractions select chains temporarily; the
+    # full coherent sum is what the closed form describes, so the selection must be back afterwards (typestate of C17)
+    from .c17 import SURFACE, surface_dirty
+
+    scoped = [k for k in SURFACE if k.split("::")[1].split(".")[-1] in ("partial_weight", "partial_weight_interference") and "chains" in SURFACE[k][0]]
+    chk.rule("E-chains", "the chain selection made by the partial-sum evaluations (partial_weight, partial_weight_interference) is undone on every exit from a snapshot that the selection itself does not mutate (typestate over the CFG, shared with C17): afterwards the density is again the coherent sum over all chains")
+    dirty, nodes = surface_dirty(repo, scoped)
+    for key in scoped:
+        chk.oblige("E-chains", "%s: chain selection restored on all exits, snapshot not aliased by an in-place update" % key.split("::")[1], not [d for d in dirty if d[0] == key])
+    for key, cell, exit_kind, has_restore, msg, path, line in dirty:
+        chk.violation("E-chains", key, "%s@%s" % (cell, exit_kind), msg, file=key.split("::")[0], line=line, path=path)
     # angular and line-shape conventions: the obligations are those of C12 / C15, evaluated here for the spins the
     # closed form quantifies over (J, L = 0..4)
     from .c12_wigner import check_gather, check_wigner
